@@ -450,6 +450,9 @@ func CheckLimits(ix *Index, timing bool) (out []Finding, obs map[string]int64) {
 		if ix.shutCall != nil && e.Seq >= ix.shutCall.Seq {
 			break
 		}
+		if e.Kind == "stuck" {
+			break // the harness released blocked callers by cancelling them: no longer a clean state
+		}
 		switch e.Kind {
 		case "enq":
 			q := ix.reqs[e.Req]
